@@ -139,7 +139,7 @@ def check_cg(case):
     mz = model(z)
     # the radius of the reference Cauchy step is measured with M = inv(P): its relative accuracy is eps * cond(P)
     slack = 1e-9 + (100 * EPS * float(onp.linalg.cond(P)) if case['precnorm'] else 0.0)
-    if mz > min(0.0, mc) + slack * abs(float(g @ zc)) + 1e-13 * abs(mc):
+    if mz > min(0.0, mc) + slack * (abs(float(g @ zc)) + 0.5 * abs(float(zc @ H @ zc))) + 1e-13 * abs(mc):
         fails.append(Failure('cauchy-decrease', 'model value %.9g at the step, %.9g at the Cauchy step (type %s, %d iterations)' % (mz, mc, stype, iters), **data))
     if stype in (ES.boundaryString, ES.negCurveString):
         if abs(zn - Delta) > 1e-5 * Delta:
